@@ -273,7 +273,8 @@ def tree_worker(task):
 
 # ------------------------------------------------------------------------------------------ part B
 
-OPS = ['by', 'parent', 'children', 'expand', 'procedural', 'tokens']
+OPS = ['by', 'parent', 'children', 'expand', 'procedural', 'tokens', 'siblings', 'node_siblings', 'node_children', 'node_under_expand']
+RESULT_QUERIES = ['children', 'expand', 'siblings', 'parent']
 
 
 def real_mapping():
@@ -306,8 +307,29 @@ def apply_op(nodes, op, p):
             nodes.by(p).procedural()
         elif op == 'tokens':
             nodes.by(p).tokens
+        elif op == 'siblings':
+            nodes.siblings(p)
+        elif op == 'node_siblings':
+            nodes.by(p)._siblings()
+        elif op == 'node_children':
+            nodes.by(p)._children()
+        elif op == 'node_under_expand':
+            nodes.by(p)._under_expand()
     except Exception:  # noqa
         pass
+
+
+def result_table(nodes, paths, only=None):
+    """Answers of the list/parent queries for every path, as path lists."""
+    out = {}
+    for q in (only or RESULT_QUERIES):
+        for p in paths:
+            try:
+                r = getattr(nodes, q)(p)
+                out[(q, p)] = [n.full_path for n in r] if isinstance(r, list) else r.full_path
+            except Exception as e:  # noqa
+                out[(q, p)] = f'raises:{type(e).__name__}'
+    return out
 
 
 def order_worker(task):
@@ -324,6 +346,10 @@ def order_worker(task):
     paths = list(ASTFinder().full_pathfy(root).keys())
     nodes0, _ = make_nodes(root, real_mapping)
     ref = class_table(nodes0, paths)
+    # reference answers: one fresh Nodes object per query kind (it never answered anything else before)
+    ref_results = {}
+    for q in RESULT_QUERIES:
+        ref_results.update(result_table(make_nodes(root, real_mapping)[0], paths, [q]))
     d = depth if len(paths) <= max_paths_for_depth else 1
     alphabet = [(op, p) for p in paths for op in OPS]
     states = set()
@@ -345,6 +371,15 @@ def order_worker(task):
                     if tuple(sig) not in seen_sig:
                         seen_sig.add(tuple(sig))
                         viol.append((sig, f'{text!r}: after {list(seq)} path {bad} resolves to {got[bad]}, in a fresh resolver to {ref[bad]}', {'src': text, 'prior': [list(x) for x in seq]}))
+            if k == 1:
+                # answers of the list queries after one prior query (any kind, any path) equal the fresh answers
+                got_r = result_table(nodes, paths)
+                if got_r != ref_results:
+                    q, bp = [key for key in ref_results if got_r[key] != ref_results[key]][0]
+                    sig = ['answer-depends-on-history', q, 'after=' + seq[0][0]]
+                    if tuple(sig) not in seen_sig:
+                        seen_sig.add(tuple(sig))
+                        viol.append((sig, f'{text!r}: after {list(seq)} {q}({bp}) = {got_r[(q, bp)]}, on a fresh Nodes object {ref_results[(q, bp)]}', {'src': text, 'prior': [list(x) for x in seq]}))
     return len(paths), len(states), transitions, viol
 
 
@@ -433,7 +468,7 @@ def run(ctx):
         'real_tree_entries': real_entries,
         'parse_trees_explored': judged,
         'exhaustive': True,
-        'bound': f'part A: all labelled ordered trees with <= {n_max} entries; part B: all prior-query sequences of length <= {depth} over {len(OPS)} query kinds x every path (length 1 for trees with more than {9 if ctx.quick else 14} entries), class table read in both directions',
+        'bound': f'part A: all labelled ordered trees with <= {n_max} entries; part B: all prior-query sequences of length <= {depth} over {len(OPS)} query kinds x every path (length 1 for trees with more than {9 if ctx.quick else 14} entries), class table read in both directions; after every single prior query the answers of {RESULT_QUERIES} for every path equal those of a Nodes object that never answered anything else',
         'evaluations': trees + transitions,
         'distinct_nontrivial': trees,
         'rule': 'non-trivial tree = at least 2 entries; distinct by construction (enumeration without repetition)',
@@ -491,6 +526,16 @@ def replay(ctx, data):
         if got != ref:
             bad = [p for p in paths if got[p] != ref[p]][0]
             ctx.violation(['class-depends-on-history', 'replay'], f'{bad}: {ref[bad]} vs {got[bad]}', data)
+        ref_results = {}
+        for q in RESULT_QUERIES:
+            ref_results.update(result_table(make_nodes(root, real_mapping)[0], paths, [q]))
+        nodes, _ = make_nodes(root, real_mapping)
+        for op, p in data['prior']:
+            apply_op(nodes, op, p)
+        got_r = result_table(nodes, paths)
+        if got_r != ref_results:
+            q, bp = [key for key in ref_results if got_r[key] != ref_results[key]][0]
+            ctx.violation(['answer-depends-on-history', 'replay'], f'{q}({bp}) = {got_r[(q, bp)]}, fresh {ref_results[(q, bp)]}', data)
     else:
         _init_worker()
         r = real_worker(data['src'])
